@@ -438,24 +438,6 @@ structure ValueBlock where
   bytes : Bytes
 deriving Inhabited
 
-/-- the result of the whole encode -/
-structure Encoded where
-  bytes : Bytes
-  conn : ConnEnc
-  controllers : Array Controller
-  /-- `attributes_encoder_ids_order_` -/
-  order : Array Nat
-  /-- per attribute id -/
-  outs : Array AttOut
-  /-- point ids / data-to-corner map of every controller (by controller index) -/
-  seqs : Array SeqOut
-  /-- the value blocks of the integer / quantization / normal encoders, in stream order -/
-  blocks : Array ValueBlock := #[]
-  /-- `num_encoded_points()` / `num_encoded_faces()` as `ComputeNumberOfEncoded…` set them -/
-  numEncodedPoints : Nat
-  numEncodedFaces : Nat
-deriving Inhabited
-
 /-- `MeshEdgebreakerEncoder::ComputeNumberOfEncodedPoints` -/
 def computeNumberOfEncodedPoints (atts : Array Attribute) (conn : ConnEnc) (usedTables : Array AttConn) : R Nat := do
   let t := conn.ct
@@ -488,23 +470,13 @@ def computeNumberOfEncodedPoints (atts : Array Attribute) (conn : ConnEnc) (used
       if !onBoundary && seams > 0 then n := n + seams - 1 else n := n + seams
   pure n
 
-/-- `PointCloudEncoder::Encode` of `MeshEdgebreakerEncoder` on `g` (a mesh). -/
-def encodeEdgebreaker (ch : EbChoices) (g : Geometry) (md : Option GeometryMetadata) (o : EbOpts) : R Encoded := do
+/-- the faces handed to `CornerTable::Create` and, for every non-position attribute, the attribute value index of
+    every corner (`InitAttributeData`); `single` = `use_single_connectivity_` -/
+def connInputs (g : Geometry) (single : Bool) : R (Faces × Array (Nat × Array Nat)) := do
   let atts := g.atts.toArray
-  let numFacesMesh := g.faces.length
   let faces : Array Nat := (flattenFaces g.faces).toArray
-  -- EncodeHeader, EncodeMetadata
-  let header : Bytes :=
-    [68, 82, 65, 67, 79, Generated.kDracoMeshBitstreamVersionMajor.toNat, Generated.kDracoMeshBitstreamVersionMinor.toNat,
-     1, Generated.MESH_EDGEBREAKER_ENCODING.toNat] ++
-    writeLE 2 (if md.isSome then Generated.METADATA_FLAG_MASK.toNat else 0)
-  let some mdBytes := encodeMetadataPart md | throw .fail
-  -- InitializeEncoder
-  let some coder := traversalCoder o numFacesMesh | throw .fail
-  let single := useSingleConnectivity o
-  -- EncodeConnectivity: the faces handed to CornerTable::Create
   let posId := namedAttributeId atts posType
-  let mut posFaces : Faces := Array.mkEmpty numFacesMesh
+  let mut posFaces : Faces := Array.mkEmpty g.faces.length
   if single then
     posFaces := g.faces.toArray
   else
@@ -527,6 +499,197 @@ def encodeEdgebreaker (ch : EbChoices) (g : Geometry) (md : Option GeometryMetad
       for p in faces do
         cv := cv.push (← mappedIndex m p)
       attCornerValues := attCornerValues.push (attId, cv)
+  pure (posFaces, attCornerValues)
+
+/-- `EncodeAttributesEncoderIdentifier` of one attribute encoder: att_data_id, element type, traversal method -/
+def ctrlIdBytes (conn : ConnEnc) (c : Controller) : Bytes :=
+  let perVertex := c.attDataId < 0 || (conn.atts[c.attDataId.toNat]!).conn.noInteriorSeams
+  [toUnsigned 8 c.attDataId,
+   (if perVertex then Generated.MESH_VERTEX_ATTRIBUTE else Generated.MESH_CORNER_ATTRIBUTE).toNat, c.traversalMethod]
+
+/-- `EncodeAttributesEncoderData` of one attribute encoder: attribute descriptors, sequential encoder types -/
+def ctrlDataBytes (atts : Array Attribute) (c : Controller) : Bytes :=
+  encVarint c.attIds.size ++ c.attIds.toList.flatMap (fun attId => descBytes (descOf (atts[attId]!))) ++
+    c.encs.toList.map (·.kind)
+
+/-- the head of the attribute section: number of encoders, identifiers, encoder data (in stream order) -/
+def attHeaderBytes (atts : Array Attribute) (conn : ConnEnc) (cs : Array Controller) (order : Array Nat) : Bytes :=
+  [cs.size % 256] ++ order.toList.flatMap (fun e => ctrlIdBytes conn (cs[e]!)) ++
+    order.toList.flatMap (fun e => ctrlDataBytes atts (cs[e]!))
+
+/-- `TransformAttributeToPortableFormat` of one sequential encoder: portable int32 values and the bytes of
+    `EncodeDataNeededByPortableTransform` -/
+def portableOf (o : EbOpts) (a : Attribute) (s : SeqEncSt) (rows : List Bytes) : R (Array Int × Bytes) := do
+  let ao := o.base.att s.attId
+  if s.kind == 1 then
+    match integerPortable a rows with
+    | none => throw .fail
+    | some p => pure (p.toArray, [])
+  else if s.kind == 2 then
+    match quantizationParams a ao with
+    | none => throw .fail
+    | some (mins, range, q) =>
+      pure ((quantizedPortable mins range q a.numComponents rows).toArray,
+            mins.flatMap (writeLE 4) ++ writeLE 4 range ++ [q % 256])
+  else if s.kind == 3 then
+    if a.numComponents != 3 then throw .fail
+    if ao.quantBits < 1 then throw .fail
+    match Octa.init ao.quantBits.toNat with
+    | none => throw .fail
+    | some ot => pure ((octaPortable ot rows).toArray, [ao.quantBits.toNat % 256])
+  else pure (#[], [])
+
+/-- what one sequential encoder contributed -/
+structure EncItem where
+  attId : Nat
+  kind : Nat
+  portable : Array Int := #[]
+  /-- raw values (kind 0) or the value block -/
+  valueBytes : Bytes := []
+  trBytes : Bytes := []
+  /-- method actually written -/
+  scheme : PScheme := .none
+  block : Option ValueBlock := none
+deriving Inhabited
+
+instance : Inhabited TView := ⟨⟨#[], #[], #[], #[], false, 0⟩⟩
+
+/-- the result of one attribute encoder (controller) -/
+structure CtrlOut where
+  ctrl : Nat
+  view : TView
+  seq : SeqOut
+  items : Array EncItem
+  /-- the parent attribute known after this controller -/
+  parent : Option ParentAtt
+deriving Inhabited
+
+/-- value blocks, then the transform parameters (`EncodePortableAttributes`,
+    `EncodeDataNeededByPortableTransforms`) -/
+def CtrlOut.bytes (c : CtrlOut) : Bytes :=
+  c.items.toList.flatMap (·.valueBytes) ++ c.items.toList.flatMap (·.trBytes)
+
+/-- the view an attribute encoder traverses and predicts on -/
+def viewOfController (conn : ConnEnc) (c : Controller) : R TView := do
+  let t := conn.ct
+  if c.onAttTable then
+    if decide (c.attDataId < 0) then throw (Err.ub "attribute_data_[-1]")
+    let a := (conn.atts[c.attDataId.toNat]!).conn
+    pure { c2v := a.c2v, opp := t.opp, seam := a.edgeSeam, lm := a.lm, isAtt := true, numFaces := t.numFaces }
+  else pure t.view
+
+/-- the parent attribute after the sequential encoder `s` produced its portable values `pt` -/
+def parentAfter (g : Geometry) (anyNeedsParent : Bool) (posId : Option Nat) (pointIds : Array Nat) (s : SeqEncSt)
+    (pt : Array Int × Bytes) (parent : Option ParentAtt) : R (Option ParentAtt) :=
+  if anyNeedsParent && some s.attId == posId then do
+    let a := g.atts.toArray[s.attId]!
+    let m ← parentMap a g.numPoints pointIds
+    pure (some { kind := s.kind, numComponents := a.numComponents, dataType := a.dataType, map := m, values := pt.1 })
+  else pure parent
+
+/-- `GenerateSequence` of an attribute encoder on its view -/
+def sequenceOfController (g : Geometry) (conn : ConnEnc) (c : Controller) (view : TView) : R SeqOut :=
+  let faces : Array Nat := (flattenFaces g.faces).toArray
+  let v2dInit := Array.replicate view.numVertices inv
+  if c.traversalMethod == Generated.MESH_TRAVERSAL_PREDICTION_DEGREE.toNat
+  then maxPredictionDegreeOrder view faces conn.processed v2dInit
+  else depthFirstOrder view faces conn.processed v2dInit
+
+/-- `TransformAttributesToPortableFormat` over the sequential encoders of one attribute encoder: portable values and
+    transform bytes of each, and the parent attribute (the portable POSITION attribute) once it has been produced -/
+def portablePass (o : EbOpts) (g : Geometry) (anyNeedsParent : Bool) (posId : Option Nat) (pointIds : Array Nat) :
+    List SeqEncSt → Option ParentAtt → R (List (Array Int × Bytes) × Option ParentAtt)
+  | [], parent => pure ([], parent)
+  | s :: ss, parent => do
+    let a := g.atts.toArray[s.attId]!
+    let rows ← rowsAt a pointIds
+    let pt ← portableOf o a s rows
+    let parent' ← parentAfter g anyNeedsParent posId pointIds s pt parent
+    let (rest, pfin) ← portablePass o g anyNeedsParent posId pointIds ss parent'
+    pure (pt :: rest, pfin)
+
+/-- `EncodePortableAttributes` of one sequential encoder -/
+def encodeItem (ch : EbChoices) (o : EbOpts) (g : Geometry) (e : Nat) (mdata : MeshData) (pointIds : Array Nat)
+    (parent : Option ParentAtt) (s : SeqEncSt) (pt : Array Int × Bytes) : R EncItem := do
+  let a := g.atts.toArray[s.attId]!
+  if s.kind == 0 then
+    let rows ← rowsAt a pointIds
+    pure { attId := s.attId, kind := 0, valueBytes := rows.flatten, trBytes := pt.2 }
+  else
+    let nc := if s.kind == 3 then 2 else a.numComponents
+    let (sch, vb) ← encodeIntegerValuesEb ch o.base s.attId s.kind nc a.numValues s.scheme mdata pointIds parent pt.1
+    pure { attId := s.attId, kind := s.kind, portable := pt.1, valueBytes := vb, trBytes := pt.2, scheme := sch,
+           block := some { ctrl := e, attId := s.attId, kind := s.kind, nc, numValues := a.numValues,
+                           scheme := s.scheme, md := mdata, pointIds, parent, portable := pt.1,
+                           outScheme := sch, bytes := vb } }
+
+/-- `EncodePortableAttributes` over the sequential encoders -/
+def encodePass (ch : EbChoices) (o : EbOpts) (g : Geometry) (e : Nat) (mdata : MeshData) (pointIds : Array Nat)
+    (parent : Option ParentAtt) : List SeqEncSt → List (Array Int × Bytes) → R (List EncItem)
+  | s :: ss, pt :: pts => do
+    let it ← encodeItem ch o g e mdata pointIds parent s pt
+    let rest ← encodePass ch o g e mdata pointIds parent ss pts
+    pure (it :: rest)
+  | _, _ => pure []
+
+/-- `EncodeAttributes` of one attribute encoder: `GenerateSequence`, `TransformAttributesToPortableFormat`,
+    `EncodePortableAttributes`; `parent` = the parent attribute known so far -/
+def encodeController (ch : EbChoices) (o : EbOpts) (g : Geometry) (conn : ConnEnc) (cs : Array Controller)
+    (anyNeedsParent : Bool) (posId : Option Nat) (e : Nat) (parent : Option ParentAtt) : R CtrlOut := do
+  let c := cs[e]!
+  -- GenerateSequence
+  let view ← viewOfController conn c
+  let seq ← sequenceOfController g conn c view
+  let mdata : MeshData := { t := view, d2c := seq.d2c, v2d := seq.v2d }
+  let (pts, parent) ← portablePass o g anyNeedsParent posId seq.pointIds c.encs.toList parent
+  let items ← encodePass ch o g e mdata seq.pointIds parent c.encs.toList pts
+  pure { ctrl := e, view, seq, items := items.toArray, parent }
+
+/-- `EncodeAllAttributes`: the attribute encoders in stream order, the parent attribute handed on -/
+def encodeControllers (ch : EbChoices) (o : EbOpts) (g : Geometry) (conn : ConnEnc) (cs : Array Controller)
+    (anyNeedsParent : Bool) (posId : Option Nat) : List Nat → Option ParentAtt → R (List CtrlOut)
+  | [], _ => pure []
+  | e :: es, parent => do
+    let c ← encodeController ch o g conn cs anyNeedsParent posId e parent
+    let rest ← encodeControllers ch o g conn cs anyNeedsParent posId es c.parent
+    pure (c :: rest)
+
+/-- the result of the whole encode -/
+structure Encoded where
+  bytes : Bytes
+  conn : ConnEnc
+  controllers : Array Controller
+  /-- `attributes_encoder_ids_order_` -/
+  order : Array Nat
+  /-- per attribute id -/
+  outs : Array AttOut
+  /-- point ids / data-to-corner map of every controller (by controller index) -/
+  seqs : Array SeqOut
+  /-- the value blocks of the integer / quantization / normal encoders, in stream order -/
+  blocks : Array ValueBlock := #[]
+  /-- the attribute encoders' outputs in stream order -/
+  couts : Array CtrlOut := #[]
+  /-- `num_encoded_points()` / `num_encoded_faces()` as `ComputeNumberOfEncoded…` set them -/
+  numEncodedPoints : Nat
+  numEncodedFaces : Nat
+deriving Inhabited
+
+/-- `PointCloudEncoder::Encode` of `MeshEdgebreakerEncoder` on `g` (a mesh). -/
+def encodeEdgebreaker (ch : EbChoices) (g : Geometry) (md : Option GeometryMetadata) (o : EbOpts) : R Encoded := do
+  let atts := g.atts.toArray
+  let numFacesMesh := g.faces.length
+  -- EncodeHeader, EncodeMetadata
+  let header : Bytes :=
+    [68, 82, 65, 67, 79, Generated.kDracoMeshBitstreamVersionMajor.toNat, Generated.kDracoMeshBitstreamVersionMinor.toNat,
+     1, Generated.MESH_EDGEBREAKER_ENCODING.toNat] ++
+    writeLE 2 (if md.isSome then Generated.METADATA_FLAG_MASK.toNat else 0)
+  let some mdBytes := encodeMetadataPart md | throw .fail
+  -- InitializeEncoder
+  let some coder := traversalCoder o numFacesMesh | throw .fail
+  let single := useSingleConnectivity o
+  -- EncodeConnectivity
+  let posId := namedAttributeId atts posType
+  let (posFaces, attCornerValues) ← connInputs g single
   let conn ← encodeConnectivity ch.conn (coder == 2) posFaces attCornerValues
   let t := conn.ct
   let numEncodedFaces := t.numFaces - t.numDegenerated
@@ -534,103 +697,24 @@ def encodeEdgebreaker (ch : EbChoices) (g : Geometry) (md : Option GeometryMetad
   let cs ← generateControllers o atts g.numPoints conn
   if cs.size > 255 then throw (.unsupported "more than 255 attribute encoders")
   let order ← rearrangeEncoders atts cs
-  let mut bytes : Bytes := [cs.size % 256]
-  -- EncodeAttributesEncoderIdentifier
-  for e in order do
-    let c := cs[e]!
-    let perVertex := c.attDataId < 0 || (conn.atts[c.attDataId.toNat]!).conn.noInteriorSeams
-    bytes := bytes ++ [toUnsigned 8 c.attDataId,
-      (if perVertex then Generated.MESH_VERTEX_ATTRIBUTE else Generated.MESH_CORNER_ATTRIBUTE).toNat, c.traversalMethod]
-  -- EncodeAttributesEncoderData
-  for e in order do
-    let c := cs[e]!
-    bytes := bytes ++ encVarint c.attIds.size
-    for attId in c.attIds do
-      bytes := bytes ++ descBytes (descOf (atts[attId]!))
-    for s in c.encs do
-      bytes := bytes ++ [s.kind]
   -- which attribute is a parent (`MarkParentAttribute` during Init)
   let anyNeedsParent := cs.any fun c => c.encs.any fun s => s.scheme.needsParent
   -- EncodeAllAttributes
-  let baseView := t.view
-  let mut outs : Array AttOut := Array.replicate atts.size { attId := 0, kind := 0, scheme := .none, valueBytes := [] }
-  let mut seqs : Array SeqOut := Array.replicate cs.size default
-  let mut blocks : Array ValueBlock := #[]
-  let mut parent : Option ParentAtt := none
-  for e in order do
-    let c := cs[e]!
-    -- GenerateSequence
-    let mut view : TView := baseView
-    if c.onAttTable then
-      if decide (c.attDataId < 0) then throw (Err.ub "attribute_data_[-1]")
-      let a := (conn.atts[c.attDataId.toNat]!).conn
-      view := { c2v := a.c2v, opp := t.opp, seam := a.edgeSeam, lm := a.lm, isAtt := true, numFaces := t.numFaces }
-    let v2dInit := Array.replicate view.numVertices inv
-    let seq ←
-      if c.traversalMethod == Generated.MESH_TRAVERSAL_PREDICTION_DEGREE.toNat
-      then maxPredictionDegreeOrder view faces conn.processed v2dInit
-      else depthFirstOrder view faces conn.processed v2dInit
-    seqs := seqs.set! e seq
-    let mdata : MeshData := { t := view, d2c := seq.d2c, v2d := seq.v2d }
-    -- TransformAttributesToPortableFormat
-    let mut portables : Array (Array Int) := #[]
-    let mut trBytes : Array Bytes := #[]
-    for s in c.encs do
-      let a := atts[s.attId]!
-      let ao := o.base.att s.attId
-      let rows ← rowsAt a seq.pointIds
-      let mut portable : Array Int := #[]
-      let mut tb : Bytes := []
-      if s.kind == 1 then
-        match integerPortable a rows with
-        | none => throw .fail
-        | some p => portable := p.toArray
-      else if s.kind == 2 then
-        match quantizationParams a ao with
-        | none => throw .fail
-        | some (mins, range, q) =>
-          portable := (quantizedPortable mins range q a.numComponents rows).toArray
-          tb := mins.flatMap (writeLE 4) ++ writeLE 4 range ++ [q % 256]
-      else if s.kind == 3 then
-        if a.numComponents != 3 then throw .fail
-        if ao.quantBits < 1 then throw .fail
-        match Octa.init ao.quantBits.toNat with
-        | none => throw .fail
-        | some ot =>
-          portable := (octaPortable ot rows).toArray
-          tb := [ao.quantBits.toNat % 256]
-      portables := portables.push portable
-      trBytes := trBytes.push tb
-      if anyNeedsParent && some s.attId == posId then
-        parent := some { kind := s.kind, numComponents := a.numComponents, dataType := a.dataType,
-                         map := ← parentMap a g.numPoints seq.pointIds, values := portable }
-    -- EncodePortableAttributes
-    for k in [0:c.encs.size] do
-      let s := c.encs[k]!
-      let a := atts[s.attId]!
-      let portable := portables[k]!
-      if s.kind == 0 then
-        let rows ← rowsAt a seq.pointIds
-        let vb := rows.flatten
-        bytes := bytes ++ vb
-        outs := outs.set! s.attId { attId := s.attId, kind := 0, scheme := .none, valueBytes := vb }
-      else
-        let nc := if s.kind == 3 then 2 else a.numComponents
-        let (sch, vb) ← encodeIntegerValuesEb ch o.base s.attId s.kind nc a.numValues s.scheme mdata seq.pointIds parent portable
-        bytes := bytes ++ vb
-        blocks := blocks.push { ctrl := e, attId := s.attId, kind := s.kind, nc, numValues := a.numValues, scheme := s.scheme,
-                                md := mdata, pointIds := seq.pointIds, parent, portable, outScheme := sch, bytes := vb }
-        outs := outs.set! s.attId { attId := s.attId, kind := s.kind, scheme := sch, portable, valueBytes := vb,
-                                    transformBytes := trBytes[k]! }
-    -- EncodeDataNeededByPortableTransforms
-    for k in [0:c.encs.size] do
-      bytes := bytes ++ trBytes[k]!
+  let couts ← encodeControllers ch o g conn cs anyNeedsParent posId order.toList none
+  let bytes := attHeaderBytes atts conn cs order ++ couts.flatMap (·.bytes)
+  let items := couts.flatMap (·.items.toList)
+  let outs : Array AttOut := items.foldl (fun outs it =>
+      outs.set! it.attId { attId := it.attId, kind := it.kind, scheme := it.scheme, portable := it.portable,
+                           valueBytes := it.valueBytes, transformBytes := if it.kind == 0 then [] else it.trBytes })
+    (Array.replicate atts.size { attId := 0, kind := 0, scheme := .none, valueBytes := [] })
+  let seqs : Array SeqOut := couts.foldl (fun seqs c => seqs.set! c.ctrl c.seq) (Array.replicate cs.size default)
+  let blocks : Array ValueBlock := (items.filterMap (·.block)).toArray
   -- ComputeNumberOfEncodedPoints: the attribute corner tables still in use
   let usedTables : Array AttConn := (cs.toList.filterMap fun c =>
     if c.onAttTable && c.attDataId ≥ 0 then some (conn.atts[c.attDataId.toNat]!).conn else none).toArray
   let numEncodedPoints ← computeNumberOfEncodedPoints atts conn usedTables
   pure { bytes := header ++ mdBytes ++ [coder] ++ conn.bytes ++ bytes, conn, controllers := cs, order, outs, seqs, blocks,
-         numEncodedPoints, numEncodedFaces }
+         couts := couts.toArray, numEncodedPoints, numEncodedFaces }
 
 /-- **CTIso**: the decoder's corner table (`dc2v`, `dopp`, `numFaces` faces) is isomorphic to the
     non-degenerate part of the encoder's table `t` under the corner map
